@@ -91,13 +91,16 @@ theorem C33_full {χ ρ ν ε κ α : Type} [DecidableEq κ] (isLimit : ε → B
     (params : ρ) (p : Plan χ ρ ε α) : CompleteOrError S Quirks.current L isLimit params p :=
   complete_or_error isLimit S _ quirks_repaired L hL hS params p
 
-/-- the theorem applies to the instance the `plan` stream runs, for every `ExecuteOptions` and
-    every behaviour of the row counter and the clock -/
-theorem C33_instance (o : Opts) (rowFires timeFires : Site → Nat → Bool) (params : DRow)
+/-- the theorem applies to the instance the `planlim` stream runs, for every `ExecuteOptions`, every
+    behaviour of the row counter and the clock, and every lawful way the EXISTS subqueries that sit
+    inside expressions answer (as without limits, or failing with a limit error) -/
+theorem C33_instance (X : (String → Nat → Option DErr) → ExFn) (o : Opts)
+    (rowFires timeFires : Site → Nat → Bool)
+    (hX : ExLawful X (LimEnv.ofOpts DErr.limit o rowFires timeFires).coll) (params : DRow)
     (p : Plan DE DRow DErr DAgg) :
-    CompleteOrError dsem Quirks.current (LimEnv.ofOpts DErr.limit o rowFires timeFires) DErr.isLimit params p :=
-  C33_full DErr.isLimit dsem _ (ofOpts_lawful o rowFires timeFires)
-    (dsem_limitLawful _ (ofOpts_collLawful o rowFires timeFires)) params p
+    CompleteOrError (dsemX X) Quirks.current (LimEnv.ofOpts DErr.limit o rowFires timeFires) DErr.isLimit params p :=
+  C33_full DErr.isLimit (dsemX X) _ (ofOpts_lawful o rowFires timeFires)
+    (dsemX_limitLawful X _ (ofOpts_collLawful o rowFires timeFires) hX) params p
 
 /-! ### witnesses on the concrete instance (replayed on the engine: corpus/plan/c33-*.ops) -/
 
@@ -160,5 +163,63 @@ theorem C33_counterexample_distinct_keeps_pulling :
     (distinctT dsem false).need [] [.ok (rowX 1), .error (DErr.limit .rows), .ok (rowX 2)]
       (driverDemand ((distinctT dsem false).run [] [.ok (rowX 1), .error (DErr.limit .rows), .ok (rowX 2)])) = 2 := by
   constructor <;> decide
+
+/-! ### a parked limit error and the end of the stream -/
+
+/-- `EXISTS { UNWIND range(1, n) AS k RETURN k }` for the row's `n`: the `Function(range)` check -/
+def existsRange : (String → Nat → Option DErr) → ExFn := fun coll _ _ row =>
+  match rowGet row "n" with
+  | some (.s (.int n)) =>
+    (match coll "Function(range)" n.toNat with
+     | some e => .failed e
+     | none => .has (n > 0))
+  | _ => .has false
+
+/-- `UNWIND [3, 5, 50] AS n UNWIND CASE WHEN EXISTS { … range(1, n) … } THEN [n] ELSE [] END AS y` -/
+def qParkLast : Plan DE DRow DErr DAgg :=
+  .unwind (.caseWhen (.existsSub 0) (.single (.var "n")) (.lit (.list []))) "y"
+    (.unwind (.lit (.list [.int 3, .int 5, .int 50])) "n" (.source [.ok []]))
+
+/-- `max_collection_items = 10` -/
+def coll10 : LimEnv DErr := LimEnv.ofOpts DErr.limit ⟨10 ^ 9, 10, 0, 10 ^ 9⟩ never never
+
+/-- a guard that skips `take_failure` on the exhausting pull -/
+def Quirks.guardDrops : Quirks := { Quirks.repaired with guardDropsFailureAtEnd := true }
+
+def rowNY (i : Int) : DRow := [("n", dint i), ("y", dint i)]
+
+/-- the limit error is parked while the LAST row is processed, that row yields nothing, the stream
+    ends — and a guard that does not look for a parked failure at the end answers a truncated result -/
+theorem C33_counterexample_guard_drops_parked_failure :
+    execute (dsemX existsRange) Quirks.guardDrops .unlimited [] qParkLast = .ok [rowNY 3, rowNY 5, rowNY 50] ∧
+    execute (dsemX existsRange) Quirks.guardDrops coll10 [] qParkLast = .ok [rowNY 3, rowNY 5] ∧
+    ¬ CompleteOrError (dsemX existsRange) Quirks.guardDrops coll10 DErr.isLimit [] qParkLast := by
+  have h1 : execute (dsemX existsRange) Quirks.guardDrops .unlimited [] qParkLast = .ok [rowNY 3, rowNY 5, rowNY 50] := by decide
+  have h2 : execute (dsemX existsRange) Quirks.guardDrops coll10 [] qParkLast = .ok [rowNY 3, rowNY 5] := by decide
+  refine ⟨h1, h2, fun h => ?_⟩
+  rcases h with h | ⟨e, he, _⟩
+  · rw [h1, h2] at h; cases h
+  · rw [h2] at he; cases he
+
+/-- the repaired guard reports it — also when the failing row is first or in the middle -/
+theorem C33_witness_parked_failure_reported :
+    execute (dsemX existsRange) Quirks.repaired coll10 [] qParkLast = .error (.limit .coll) := by decide
+
+example : ExLawful existsRange coll10.coll := by
+  intro i env row
+  simp only [existsRange]
+  cases rowGet row "n" with
+  | none => left; rfl
+  | some v =>
+    cases v with
+    | list xs => left; rfl
+    | s x =>
+      cases x with
+      | int n =>
+        simp only
+        cases h : coll10.coll "Function(range)" n.toNat with
+        | none => left; rfl
+        | some e => right; exact ⟨e, rfl, (ofOpts_lawful _ _ _).coll _ _ _ h⟩
+      | _ => left; rfl
 
 end Nervus.Props.C33
